@@ -642,6 +642,10 @@ Definition C12_round (c : ccfg) (parent : json) (key : string) (evs : list ev) (
       if negb (qhas qs "AddRateLimited" key) && negb (qhas qs "Forget" key) then Some "neither-requeued-nor-forgotten" else
       (* a hard failure anywhere must surface as an error with back-off *)
       if existsb hard_failure evs && negb (qhas qs "AddRateLimited" key) then Some "failure-swallowed-without-requeue" else
+      (* after the hook only the documented races are benign, each at its own call site: any other
+         refused request (a conflict on a delete or a create, say) must surface as an error too *)
+      if existsb (fun e => negb (benign_after_hook c parent e)) (after_hook evs) && negb (qhas qs "AddRateLimited" key)
+      then Some "non-benign-failure-swallowed-without-requeue" else
       (* 429: requeue after the advertised delay, not an error *)
       match first_some (fun e => match e_ans e with AHook429 n => Some (string_of_Z n) | _ => None end) evs with
       | Some n =>
